@@ -435,3 +435,76 @@ theorem spec_run_emits {σ ι β τ} (m : Machine σ ι β) (I : St σ → Prop)
     · rw [final, accepted_cons, List.foldl_append, ih'.2.1, hs.2]
 
 end Comb
+
+namespace Comb
+
+theorem mem_of_mem_cut {β} (x : Notif β) (l : List (Notif β)) (h : x ∈ cut l) : x ∈ l := by
+  induction l with
+  | nil => simp [cut] at h
+  | cons a r ih =>
+    simp only [cut] at h
+    split at h
+    · simp at h; simp [h]
+    · rcases List.mem_cons.mp h with h | h
+      · simp [h]
+      · exact List.mem_cons_of_mem _ (ih h)
+
+/-- **completion rule.** A declarative fold over the delivered notifications (`sstep`) and a predicate `rule` on its state.
+If, from every invariant state in which the rule does not hold yet, the handler of a delivered notification sends
+`completed` exactly when the rule becomes true, then a run completes iff the rule holds for the notifications it
+delivered. -/
+theorem rule_run {σ ι β τ} (m : Machine σ ι β) (I : St σ → Prop) (abs : σ → τ)
+    (sstep : τ → Nat × Notif ι → τ) (rule : τ → Prop)
+    (hinv : ∀ st e, I st → I (step m st e).1)
+    (hwf : ∀ st, I st → st.p.WF)
+    (habs : ∀ st e, I st → abs (step m st e).1.s = (accOne st e).foldl sstep (abs st.s))
+    (hstep : ∀ st k n, I st → k ∈ st.p.live → ¬ rule (abs st.s) →
+      (Notif.completed ∈ cut (actEmits (m.handler st.s k n).2) ↔ rule (sstep (abs st.s) (k, n))))
+    (htick : ∀ st, I st → Notif.completed ∉ emits (step m st .tick).2)
+    (es : List (Ev ι)) : ∀ st, I st → ¬ rule (abs st.s) →
+    (Notif.completed ∈ emits (run m st es) ↔ rule ((accepted m st es).foldl sstep (abs st.s))) := by
+  induction es with
+  | nil => intro st _ hr; simp [accepted, hr]
+  | cons e es ih =>
+    intro st h hr
+    have hI' := hinv st e h
+    have ha := habs st e h
+    rw [run_cons, emits_append, List.mem_append, accepted_cons, List.foldl_append]
+    cases e with
+    | tick =>
+      have ha' : abs (step m st Ev.tick).1.s = abs st.s := by simpa [accOne] using ha
+      have := ih _ hI' (by rw [ha']; exact hr)
+      rw [ha'] at this
+      simp only [accOne, List.foldl_nil]
+      constructor
+      · rintro (h1 | h1)
+        · exact absurd h1 (htick st h)
+        · exact this.mp h1
+      · intro h1; exact Or.inr (this.mpr h1)
+    | dispose =>
+      have ha' : abs (step m st Ev.dispose).1.s = abs st.s := by simpa [accOne] using ha
+      have := ih _ hI' (by rw [ha']; exact hr)
+      rw [ha'] at this
+      simp only [accOne, List.foldl_nil, emits_step_dispose]
+      simpa using this
+    | src k n =>
+      by_cases hk : k ∈ st.p.live
+      · simp only [accOne, hk, if_true, List.foldl_cons, List.foldl_nil] at ha ⊢
+        rw [emits_step_src m st k n (hwf st h) hk]
+        have hs := hstep st k n h hk hr
+        by_cases hr' : rule (sstep (abs st.s) (k, n))
+        · have hc := hs.mpr hr'
+          have hd := step_src_done_of_terminal m st k n hk
+            (List.any_eq_true.mpr ⟨_, mem_of_mem_cut _ _ hc, rfl⟩)
+          rw [accepted_done m es _ (hwf _ hI') hd]
+          simp [hc, hr']
+        · have hnc : Notif.completed ∉ cut (actEmits (m.handler st.s k n).2) := fun hc => hr' (hs.mp hc)
+          have := ih _ hI' (by rw [ha]; exact hr')
+          rw [ha] at this
+          simp [hnc, this]
+      · have hst : step m st (.src k n) = (st, []) := step_src_not_live m st k n hk
+        rw [hst]
+        simp only [accOne, hk, if_false, List.foldl_nil, emits_nil]
+        simpa using ih st h hr
+
+end Comb
